@@ -23,6 +23,7 @@ type Obligation struct {
 	Text   string // clause text (contract source) or description
 	Cover  bool   // vacuity guard: must be SAT
 	Extras []string // extra assertions local to this obligation
+	goalIdx int     // index in Script.asserts of the goal assumed after this obligation
 	KnownFinding bool
 
 	// results
